@@ -111,3 +111,31 @@ fn single_message_then_close_each_capacity() {
         check(&got, 1, 1);
     }
 }
+
+#[test]
+fn blocking_send_on_a_full_channel_is_delivered_without_further_traffic() {
+    // the channel is full; a second thread blocks in send(); nothing else happens afterwards (no other
+    // send, no drop): the blocked sender's message must still reach the loop
+    for cap in [1usize, 2] {
+        for _round in 0..25 {
+            let mut el: EventLoop<Got> = EventLoop::try_new().unwrap();
+            let (tx, rx) = sync_channel::<(u8, u32)>(cap);
+            el.handle().insert_source(rx, cb).unwrap();
+            for i in 0..cap as u32 { tx.send((0, i)).unwrap(); }
+            let tx2 = tx.clone();
+            let th = std::thread::spawn(move || { tx2.send((0, cap as u32)).unwrap(); tx2 }); // blocks: the channel is full
+            std::thread::sleep(Duration::from_millis(5));
+            let mut got = Got::default();
+            let t = Instant::now();
+            while got.msgs.len() < cap + 1 {
+                el.dispatch(Duration::from_millis(50), &mut got).unwrap();
+                assert!(t.elapsed() < Duration::from_secs(2), "capacity {}: the message of the blocked sender was left queued ({} of {} delivered)", cap, got.msgs.len(), cap + 1);
+            }
+            let keep = th.join().unwrap();
+            assert_eq!(got.msgs.iter().map(|m| m.1).collect::<Vec<_>>(), (0..=cap as u32).collect::<Vec<_>>());
+            assert_eq!(got.closed, 0);
+            drop(keep);
+            drop(tx);
+        }
+    }
+}
